@@ -37,6 +37,10 @@ LATE_FAILURES = [
     ("declare_static", "$job", [], ["a", "b", ".stepup/x"], []),
     ("declare_static", "$job", ["d/", "./"], [], []),
     ("declare_static", "$job", ["d/s/", "d/"], ["a"], []),
+    # a tree that is fine on its own, followed by a file or a pattern that is refused
+    ("declare_static", "$job", ["d/s/"], ["a", ".stepup/x"], []),
+    ("declare_static", "$job", ["d/s/"], ["b"], []),
+    ("declare_static", "$job", ["d/"], [], [("*", ["a", "b"])]),
 ]
 
 
